@@ -50,6 +50,7 @@ type Contract struct {
 	Allocs   bool // the function may allocate objects visible to the caller
 	AllocT   []string // ... of these kinds (struct short names, "map", "chan", "cell")
 	SpawnMod []ast.Expr // what goroutines started by this function may modify (default: nothing)
+	Observe  map[string]string // obligation-name suffix -> why a failure of it is outside the property (reported, not alarmed)
 	Devirt   map[string]string
 	ModText  []string
 	LoopInvs map[int][]Clause
@@ -147,7 +148,7 @@ var declKeywords = map[string]bool{"func": true, "extern": true, "field": true, 
 	"ghost": true, "axiom": true, "monitor": true, "lemma": true, "devirtall": true}
 var clauseKeywords = map[string]bool{"prop": true, "params": true, "results": true, "recv": true, "requires": true, "ensures": true,
 	"modifies": true, "loop": true, "on": true, "instantiate": true, "strings": true, "inline": true, "mode": true, "decreases": true,
-	"safety": true, "invariant": true, "protects": true, "self": true, "vars": true, "assumes": true, "replay": true, "allocates": true, "devirt": true, "spawn": true, "rely": true}
+	"safety": true, "invariant": true, "protects": true, "self": true, "vars": true, "assumes": true, "replay": true, "allocates": true, "devirt": true, "spawn": true, "rely": true, "observation": true}
 
 // desugarSpec rewrites ==> and <==> (lowest precedence, right associative) into calls.
 func desugarSpec(s string) string {
@@ -664,6 +665,16 @@ func parseContractFile(path, pkgPath, pkgName string) (*ContractFile, error) {
 					}
 					cur.SpawnMod = append(cur.SpawnMod, e)
 				}
+			case "observation":
+				// observation <obligation suffix> :: <text>
+				parts := strings.SplitN(rest, "::", 2)
+				if len(parts) != 2 {
+					return nil, fmt.Errorf("%s:%d: observation <obligation suffix> :: <text>", path, rl.line)
+				}
+				if cur.Observe == nil {
+					cur.Observe = map[string]string{}
+				}
+				cur.Observe[strings.TrimSpace(parts[0])] = strings.TrimSpace(parts[1])
 			case "allocates":
 				cur.Allocs = true
 				cur.AllocT = append(cur.AllocT, fieldsComma(rest)...)
